@@ -10,6 +10,7 @@ import (
 	"os"
 	"path/filepath"
 	"sort"
+	"strings"
 	"time"
 
 	"github.com/go-spring/log"
@@ -28,6 +29,7 @@ type rtEntry struct {
 type rtCase struct {
 	Pop       []rtEntry `json:"pop"`
 	Survivors []rtEntry `json:"survivors"`
+	TwoScans  bool      `json:"twoscans"`
 }
 
 func rtName(fileName, class string) string {
@@ -63,9 +65,19 @@ func rtName(fileName, class string) string {
 		return fileName + ",v"
 	case "bare":
 		return fileName
+	case "dotsub": // the name of a sibling whose file name differs only where this one has a dot
+		if strings.Contains(fileName, ".") {
+			return strings.ReplaceAll(fileName, ".", "_") + "." + ts
+		}
+		return "other-" + fileName + "." + ts
+	case "insub": // looks like an own file, but lives in a sub-directory of the log directory
+		return filepath.Join("archive", fileName+"."+ts)
 	}
 	return "other.txt"
 }
+
+// rtMargin: how young a "rewritten" file is at the first scan
+const rtMargin = 1500 * time.Millisecond
 
 func cmdRetention(f hx.Flags, r *hx.Result) {
 	rng := hx.Rand(14)
@@ -79,6 +91,10 @@ func cmdRetention(f hx.Flags, r *hx.Result) {
 	fileNames := []string{"app.log", "app.log.wf", "svc"}
 	n := 0
 	sigs := map[string]bool{}
+	// populations with a second scan: first scans now, then one common pause in which the "rewritten" files'
+	// first modification times fall behind the cut-off, the files are written again, and the same appenders scan again
+	var second []func()
+	var touch []string
 	err = hx.ReadCases(f.Str("cases", ""), func(raw json.RawMessage) error {
 		var c rtCase
 		if err := json.Unmarshal(raw, &c); err != nil {
@@ -87,7 +103,12 @@ func cmdRetention(f hx.Flags, r *hx.Result) {
 		n++
 		dir := filepath.Join(tmp, fmt.Sprintf("p%d", n))
 		_ = os.MkdirAll(dir, 0o755)
-		defer os.RemoveAll(dir)
+		keepDir := false
+		defer func() {
+			if !keepDir {
+				os.RemoveAll(dir)
+			}
+		}()
 		maxAge := ages[rng.Intn(len(ages))]
 		fileName := fileNames[n%len(fileNames)]
 		app := &log.RollingFileAppender{Layout: &log.TextLayout{BaseLayout: log.BaseLayout{FileLineLength: 48}},
@@ -96,17 +117,18 @@ func cmdRetention(f hx.Flags, r *hx.Result) {
 			r.SetInfra("start: %v", err)
 			return nil
 		}
-		defer app.Stop()
 		app.Write([]byte("current\n"))
 		cur, _, _ := log.VerifRollingState(app)
-		now := time.Now()
-		cut := now.Add(-time.Duration(maxAge) * time.Hour)
 		want := map[string]bool{filepath.Base(cur): true}
-		desc := map[string]any{"population": c.Pop, "maxAge": maxAge, "fileName": fileName}
+		desc := map[string]any{"population": c.Pop, "maxAge": maxAge, "fileName": fileName, "two_scans": c.TwoScans}
 		sig := ""
+		var rewritten []string
+		t0 := time.Now()
+		cut := t0.Add(-time.Duration(maxAge) * time.Hour)
 		for _, e := range c.Pop {
 			name := rtName(fileName, e.Name)
 			p := filepath.Join(dir, name)
+			_ = os.MkdirAll(filepath.Dir(p), 0o755)
 			if e.Kind == "dir" {
 				// an empty directory: removable by a plain os.Remove, so only the scan's own check protects it
 				_ = os.Mkdir(p, 0o755)
@@ -114,47 +136,78 @@ func cmdRetention(f hx.Flags, r *hx.Result) {
 				_ = os.WriteFile(p, []byte("x\n"), 0o644)
 			}
 			delta := time.Duration(2+rng.Intn(3600)) * time.Second
+			if c.TwoScans && e.Age == "younger" {
+				delta += 20 * time.Minute // still young when the second scan runs, whenever that is
+			}
 			mt := cut.Add(delta)
-			if e.Age == "older" {
+			switch e.Age {
+			case "older":
 				mt = cut.Add(-delta)
+			case "rewritten":
+				mt = cut.Add(rtMargin) // young by a small margin now, behind the cut-off at the second scan
+				rewritten = append(rewritten, p)
 			}
 			if err := os.Chtimes(p, mt, mt); err != nil {
 				r.SetInfra("chtimes: %v", err)
 				return nil
+			}
+			if e.Name == "insub" {
+				want["archive"] = true
 			}
 			sig += e.Name + e.Kind + e.Age + ";"
 		}
 		for _, e := range c.Survivors {
 			want[rtName(fileName, e.Name)] = true
 		}
-		if p := hx.Catch(func() { log.VerifClearExpired(app) }); p != nil {
-			r.Violate("cleanup-panic", desc, "retention scan panicked: %v", p)
+		scan := func(which string) bool {
+			if p := hx.Catch(func() { log.VerifClearExpired(app) }); p != nil {
+				r.Violate("cleanup-panic", desc, "retention scan panicked: %v", p)
+				return false
+			}
+			r.Eval(1)
+			got := map[string]bool{}
+			_ = filepath.WalkDir(dir, func(p string, d os.DirEntry, err error) error {
+				if rel, _ := filepath.Rel(dir, p); err == nil && rel != "." {
+					got[rel] = true
+				}
+				return nil
+			})
+			var lostNames, keptNames []string
+			for k := range want {
+				if !got[k] {
+					lostNames = append(lostNames, k)
+				}
+			}
+			for k := range got {
+				if !want[k] {
+					keptNames = append(keptNames, k)
+				}
+			}
+			sort.Strings(lostNames)
+			sort.Strings(keptNames)
+			if len(lostNames) > 0 {
+				r.Violate("deleted-foreign-or-young"+which, desc, "retention (maxAge %dh) deleted %v, which the specification keeps", maxAge, lostNames)
+			}
+			if len(keptNames) > 0 {
+				r.Violate("expired-own-kept"+which, desc, "retention (maxAge %dh) kept %v, which the specification deletes", maxAge, keptNames)
+			}
+			return len(lostNames)+len(keptNames) == 0
+		}
+		if c.TwoScans && time.Since(t0) > rtMargin*2/3 {
+			app.Stop() // the machine stalled: the "rewritten" files may already be behind the cut-off; not conclusive
 			return nil
 		}
-		r.Eval(1)
-		ents, _ := os.ReadDir(dir)
-		got := map[string]bool{}
-		for _, e := range ents {
-			got[e.Name()] = true
-		}
-		var lostNames, keptNames []string
-		for k := range want {
-			if !got[k] {
-				lostNames = append(lostNames, k)
-			}
-		}
-		for k := range got {
-			if !want[k] {
-				keptNames = append(keptNames, k)
-			}
-		}
-		sort.Strings(lostNames)
-		sort.Strings(keptNames)
-		if len(lostNames) > 0 {
-			r.Violate("deleted-foreign-or-young", desc, "retention (maxAge %dh) deleted %v, which the specification keeps", maxAge, lostNames)
-		}
-		if len(keptNames) > 0 {
-			r.Violate("expired-own-kept", desc, "retention (maxAge %dh) kept %v, which the specification deletes", maxAge, keptNames)
+		ok := scan("")
+		if c.TwoScans && ok {
+			second = append(second, func() {
+				scan(":second-scan")
+				app.Stop()
+				os.RemoveAll(dir)
+			})
+			touch = append(touch, rewritten...)
+			keepDir = true
+		} else {
+			app.Stop()
 		}
 		sigs[sig] = true
 		if n == 11 {
@@ -164,6 +217,16 @@ func cmdRetention(f hx.Flags, r *hx.Result) {
 	})
 	if err != nil {
 		r.SetInfra("read cases: %v", err)
+	}
+	if len(second) > 0 {
+		time.Sleep(rtMargin + 300*time.Millisecond)
+		now := time.Now()
+		for _, p := range touch {
+			_ = os.Chtimes(p, now, now)
+		}
+		for _, f := range second {
+			f()
+		}
 	}
 	r.NonTrivial(int64(len(sigs)))
 }
